@@ -183,6 +183,19 @@ def law_project(t):
             want = [min(max(p, l), h) for l, p, h in zip(lo, pt, hi)]
             if not vclose(got, want):
                 return f"box {fmt(lo)} -> {fmt(hi)}, point {fmt(pt)}: project gives {fmt(got)}, the closest point of the closed box is {fmt(want)}"
+    # integer-typed query points against non-integer corners: the result must not inherit the integer dtype of the point
+    for lo, hi in (([0.5, 0.5], [1.5, 1.5]), ([-0.25, 0.75], [2.5, 1.25]), ([0.5], [0.75])):
+        dim = len(lo)
+        for pt in ([3, 0], [0, 3], [1, 1], [-2, -2], [2, 1])[:5 if dim == 2 else 3]:
+            pt = pt[:dim]
+            want = [min(max(p, l), h) for l, p, h in zip(lo, pt, hi)]
+            for form in ("integer Vec", "tuple of ints", "integer array"):
+                b = _box(t, lo, hi)
+                arg = t.vec(pt, "the query point") if form == "integer Vec" else tuple(pt) if form == "tuple of ints" else t.arr(pt, "the query point")
+                got = t.nums(t.m(b, "project", arg, what="AABB.project"))
+                if not vclose(got, want):
+                    return (f"box {fmt(lo)} -> {fmt(hi)}, point {fmt(pt)} given as {form}: project gives {fmt(got)}, the closest point of the "
+                            f"closed box is {fmt(want)} (the integer type of the point must not truncate the corners)")
     b = _box(t, [0.5, -1.25, 2.], [1.5, 0.75, 2.])
     for pt in ([3., 0., 2.], [1., -2.5, 7.25], [0.75, 0., 2.]):
         got = t.nums(t.m(b, "project", list(pt), what="AABB.project"))          # any iterable is accepted (Vec(pt))
@@ -201,7 +214,23 @@ def _norm(v, which):
 
 
 def law_iterables(t):
-    """the query point / the point set may be any iterable (they go through Vec(...) / np.array(...))"""
+    """the query point / the point set may be any iterable (they go through Vec(...) / np.array(...)), of integers as well"""
+    for pt, inside, dist in (([1, 1], True, 0.0), ([3, 0], False, math.hypot(1.5, 0.5)), ([0, 1], False, 0.5)):
+        for form in ("integer Vec", "tuple of ints"):
+            b = _box(t, [0.5, 0.5], [1.5, 1.5])
+            arg = (lambda: t.vec(pt, "the query point")) if form == "integer Vec" else (lambda: tuple(pt))
+            if t.truth(t.m(b, "contains_point", arg(), what="AABB.contains_point")) != inside:
+                return f"contains_point of the integer point {fmt(pt)} ({form}) in the box (0.5, 0.5) -> (1.5, 1.5) is not {inside}"
+            d = t.num(t.m(b, "distance", arg(), what="AABB.distance"))
+            if not close(d, dist):
+                return f"distance of the integer point {fmt(pt)} ({form}) to the box (0.5, 0.5) -> (1.5, 1.5) is {fmt(d)}, expected {fmt(dist)}"
+    bb = t.call(t.attr(t.g(AABB_MOD, "AABB"), "of_points"), t.arr([[0, 1], [2, -1], [1, 3]], "the array of points"), 0.25, what="AABB.of_points")
+    mini, maxi = _corners(t, bb)
+    if not (vclose(mini, [-0.25, -1.25]) and vclose(maxi, [2.25, 3.25])):
+        return f"of_points of integer points with padding 0.25 is {fmt(mini)} -> {fmt(maxi)}, expected (-0.25, -1.25) -> (2.25, 3.25)"
+    c = t.nums(t.attr(t.call(t.g(AABB_MOD, "AABB"), [0, 0], [1, 3], what="AABB()"), "center"))
+    if not vclose(c, [0.5, 1.5]):
+        return f"the center of the integer box (0, 0) -> (1, 3) is {fmt(c)}"
     b = _box(t, [0., 0.], [2., 1.])
     if not t.truth(t.m(b, "contains_point", [1., 0.5], what="AABB.contains_point")) or t.truth(t.m(b, "contains_point", (2., 0.5), what="AABB.contains_point")):
         return "contains_point of a point given as a list / tuple: (1, 0.5) must be inside and (2, 0.5) outside the box (0, 0) -> (2, 1)"
